@@ -4,7 +4,7 @@ from vlib import Rng
 
 RULE = ("family fsm: histories of 2-6 requests through ONE handler whose document root is replaced on the way (setDocumentRoot), relative and absolute spellings of files below the roots that were or are in force; family fs: FilesystemHandler over a scratch tree with canaries outside the root (SECRET in the parent chain, sibling root2/, "
         "name-extension sibling rootX/); request paths over the segment alphabet {name, '.', '..', '', encoded dots / slashes, "
-        "absolute prefixes incl. a percent-encoded leading slash} up to 4 segments exhaustively (6 in thorough, sampled) x 4 document-root spellings (plain, trailing slash, "
+        "absolute prefixes incl. a percent-encoded leading slash and ':/' (Qt resource paths, with a canary compiled into the harness)} up to 4 segments exhaustively (6 in thorough, sampled) x 4 document-root spellings (plain, trailing slash, "
         "dot segments, relative to cwd); non-trivial = distinct case")
 ASSUMPTIONS = ["no symbolic links (outside the property's quantifier)", "request paths are ASCII",
                "the path is what the server hands to the handler (already decoded once); the handler decodes once more"]
@@ -55,6 +55,10 @@ def cases(tier, seed, ctx=None):
             for ups in (1, 2, 3, 4):
                 for tgt in (b"", b"SECRET", b"SECRET2", b"root2/x", b"rootX/y", b"roo", b"root/a.txt", b"q/root/a.txt"):
                     paths.add(pre + sl + b"/".join([b".."] * ups) + (b"/" + tgt if tgt else b""))
+    # paths that Qt (not POSIX) calls absolute: the process's resource file system, where the harness has compiled in a canary
+    for pre in (b":/", b"%3A/", b"%3a%2F", b"%253A/", b"/:/", b"sub/../:/", b":"):
+        for t in (b"hxcanary/canary.txt", b"hxcanary/", b"hxcanary", b"", b"qt-project.org/"):
+            paths.add(pre + t)
     for p in sorted(paths):
         root = ROOTS[rng.below(len(ROOTS))] if len(p) > 8 else None
         for r in ([root] if root else ROOTS):
